@@ -351,6 +351,27 @@ def install(I, G, hooks=None):
             s = M.read(args[2], "PX" if "PowersOfX" in params else "SC")
             M.write(args[0], kind, GE(kind, a.p * s.p))
 
+        def h_mul_hb(I_, name, args, site, kind=kind, ak=ak):
+            """multiply_doubleadd[_restrict](base, scalar, highest_bit): the ladder reads bits highest_bit..0 only, so the result is
+            [scalar mod 2^(highest_bit+1)] base (the loop itself: C06's doubleadd obligations)"""
+            d = I_.prog.demangled[name]
+            params = d.split("(", 1)[1]
+            base_affine = "Affine" in params.split(",")[0]
+            hb = args[3]
+            if not is_conc(hb):
+                raise ExecError("unsupported", "multiply_doubleadd with a symbolic highest_bit")
+            hb = hb if hb < (1 << 31) else hb - (1 << 32)
+            a = M.read(args[1], ak if base_affine else kind)
+            s = M.read(args[2], "SC")
+            if hb >= 255:
+                M.write(args[0], kind, GE(kind, a.p * s.p))
+                return
+            if hb < -1:
+                raise ExecError("unsupported", "multiply_doubleadd with highest_bit = %d (the loop does not terminate before the bit index wraps)" % hb)
+            k = scalar_int(s, "multiply_doubleadd(highest_bit=%d)" % hb)
+            k = k % (1 << (hb + 1))
+            M.write(args[0], kind, GE(kind, a.p * Poly.const(k)))
+
         def h_rand(I_, name, args, site, kind=kind):
             M.write(args[0], kind, GE(kind, G.fresh_sym("gen" + kind + "_")))
 
@@ -372,6 +393,7 @@ def install(I, G, hooks=None):
         I.add_intercept(AR + r"::negate" + ANY, h_aneg, ak + "::negate")
         I.add_intercept(AR + r"::copy" + ANY, h_acopy, ak + "::copy")
         I.add_intercept(r"(?:void )?" + PR + r"::multiply(?:_endomorphism|_frobenius|_wnaf|_doubleadd)?(?:<.*>)?\(.*(?:BigInt<256>|PowersOfX) const&\)", h_mul, kind + "::multiply")
+        I.add_intercept(r"(?:void )?" + PR + r"::multiply_doubleadd(?:_restrict)?(?:<.*>)?\(.*BigInt<256> const&, int\)", h_mul_hb, kind + "::multiply_doubleadd(highest_bit)")
         I.add_intercept(PR + r"::random_generator" + ANY, h_rand, kind + "::random_generator")
         I.add_intercept(PR + r"::is_zero\(\) const", h_iszero, kind + "::is_zero")
 
